@@ -89,8 +89,47 @@ func specialScalarSort(n *types.Named) (string, bool) {
 	return "", false
 }
 
-func classify(t types.Type) tkind {
+// tpSubst: substitution of type parameters of inlined generic callees by the caller's types (type parameters are unique objects,
+// so one map serves all active frames). Reset per VC.
+var tpSubst = map[*types.TypeParam]types.Type{}
+
+func resolveTP(t types.Type) types.Type {
 	t = types.Unalias(t)
+	for i := 0; i < 8; i++ {
+		tp, ok := t.(*types.TypeParam)
+		if !ok {
+			return t
+		}
+		if r, ok := tpSubst[tp]; ok {
+			t = types.Unalias(r)
+			continue
+		}
+		// a type parameter with a slice core type (S ~[]E) behaves as that slice
+		if ct := coreSlice(tp); ct != nil {
+			return ct
+		}
+		return t
+	}
+	return t
+}
+
+func coreSlice(tp *types.TypeParam) types.Type {
+	it, ok := tp.Constraint().Underlying().(*types.Interface)
+	if !ok || it.NumEmbeddeds() != 1 {
+		return nil
+	}
+	u, ok := it.EmbeddedType(0).(*types.Union)
+	if !ok || u.Len() != 1 {
+		return nil
+	}
+	if sl, ok := u.Term(0).Type().Underlying().(*types.Slice); ok {
+		return sl
+	}
+	return nil
+}
+
+func classify(t types.Type) tkind {
+	t = resolveTP(t)
 	if n, ok := t.(*types.Named); ok {
 		if _, ok := specialScalarSort(n); ok {
 			return kScalar
@@ -116,7 +155,7 @@ func classify(t types.Type) tkind {
 
 // sortOf: SMT sort of a scalar Go type.
 func sortOf(t types.Type) string {
-	t = types.Unalias(t)
+	t = resolveTP(t)
 	if n, ok := t.(*types.Named); ok {
 		if s, ok := specialScalarSort(n); ok {
 			return s
@@ -217,7 +256,7 @@ func intModulus(t types.Type) (string, bool, bool) { // modulus, signed, ok
 
 // typeRepr: short stable text for a type, used in heap keys.
 func typeRepr(t types.Type) string {
-	t = types.Unalias(t)
+	t = resolveTP(t)
 	switch x := t.(type) {
 	case *types.Named:
 		s := qualifiedName(x)
@@ -271,11 +310,12 @@ func joinPath(a, b string) string {
 
 // leavesOf enumerates the scalar leaves of a value of type t at path prefix.
 func leavesOf(t types.Type, prefix string) []leaf {
+	t = resolveTP(t)
 	switch classify(t) {
 	case kScalar:
 		return []leaf{{prefix, t, sortOf(t)}}
 	case kSlice:
-		return []leaf{{joinPath(prefix, "#arr"), types.Typ[types.Int], SInt}, {joinPath(prefix, "#off"), types.Typ[types.Int], SInt},
+		return []leaf{{joinPath(prefix, "#arr"), types.Typ[types.Int], SInt},
 			{joinPath(prefix, "#len"), types.Typ[types.Int], SInt}, {joinPath(prefix, "#cap"), types.Typ[types.Int], SInt}}
 	case kStruct:
 		st := t.Underlying().(*types.Struct)
@@ -298,7 +338,7 @@ func rootName(t types.Type) string {
 }
 
 func derefType(t types.Type) types.Type {
-	if p, ok := types.Unalias(t).Underlying().(*types.Pointer); ok {
+	if p, ok := resolveTP(t).Underlying().(*types.Pointer); ok {
 		return p.Elem()
 	}
 	return nil
@@ -328,4 +368,12 @@ func fmtVal(v Val) string {
 		return "(" + strings.Join(fs, ",") + ")"
 	}
 	return fmt.Sprintf("%v", v)
+}
+
+func sliceElem(t types.Type) types.Type {
+	if sl, ok := resolveTP(t).Underlying().(*types.Slice); ok {
+		return sl.Elem()
+	}
+	fail("not a slice type: %s", t)
+	return nil
 }
